@@ -104,3 +104,29 @@ def _filters(repo):
             f"def contribFilterNames : List String := {lst(cnames)}\n"
             f"def globalFunctionNames : List String := {lst(funcs)}")
     return {"builtin": names, "contrib": cnames, "functions": funcs}, lean
+
+
+@item("AUTOESCAPE_BY_NAME")
+def _autoescape(repo):
+    src = read(repo, "minijinja/src/defaults.rs")
+    m = re.search(r"const IGNORED_EXTENSIONS:\s*\[&str;\s*\d+\]\s*=\s*\[([^\]]*)\];", src)
+    if not m:
+        raise KeyError("IGNORED_EXTENSIONS")
+    ignored = re.findall(r"\"([^\"]*)\"", m.group(1))
+    body = fn_body(src, r"pub fn default_auto_escape_callback\(mut name: &str\) -> AutoEscape\s*\{")
+    # shape: strip the first matching ignored suffix, then look at what follows the LAST dot
+    if not re.search(r"for ext in IGNORED_EXTENSIONS\s*\{\s*if let Some\(stripped\) = name\.strip_suffix\(ext\)\s*\{\s*name = stripped;\s*break;", body):
+        raise KeyError("default_auto_escape_callback: suffix stripping loop")
+    if not re.search(r"match name\.rsplit\('\.'\)\.next\(\)\s*\{", body):
+        raise KeyError("default_auto_escape_callback: extension = text after the last dot")
+    mh = re.search(r"Some\(([^)]*)\)\s*=>\s*AutoEscape::Html", body)
+    mj = re.search(r"Some\(([^)]*)\)\s*=>\s*AutoEscape::Json", body)
+    if not mh or not mj or not re.search(r"_\s*=>\s*AutoEscape::None", body):
+        raise KeyError("default_auto_escape_callback arms")
+    html = re.findall(r"\"([^\"]*)\"", mh.group(1))
+    jsn = re.findall(r"\"([^\"]*)\"", mj.group(1))
+    lst = lambda xs: "[" + ", ".join(lean_str(x) for x in xs) + "]"
+    lean = (f"def autoEscapeIgnoredExts : List String := {lst(ignored)}\n"
+            f"def autoEscapeHtmlExts : List String := {lst(html)}\n"
+            f"def autoEscapeJsonExts : List String := {lst(jsn)}")
+    return {"ignored": ignored, "html": html, "json": jsn}, lean
